@@ -325,6 +325,35 @@ def AOp.ok (W : World) : AOp → Prop
   | .callerEdit a _ => a ∉ RVal.addrsKV W.jobs
   | _ => True
 
+/-! ### a third party: the running job
+
+The storage's client in the library is the `Evaluator`.  `Evaluator._create_tasks(cfg)` makes the new job's own deep copy of
+the configuration (`Job.args`: the dict the run-function later receives as `RunningJob.parameters` and may edit in place —
+`RunningJob` is a `MutableMapping` over it) and gives the storage ANOTHER deep copy, wrapped as
+`{"args": (copy,), "kwargs": None}` (`store_job_in`).  `submitIn` is that wrapped object, `World.submit` the step: the
+parameters object joins what is held outside the storage (`held`), the wrapped copy is stored by reference. -/
+
+/-- the two copies made at submission: (the job's parameters, the object given to the storage, next free identity) -/
+def submitObjs (n : Nat) (cfg : RVal) : RVal × RVal × Nat :=
+  let (p, m) := cfg.copy n
+  let (c, m') := cfg.copy m
+  (p, .dict m' [("args", .tuple [c]), ("kwargs", .atom .none)], m' + 1)
+
+/-- the world after the copies are made, before the store -/
+def World.withParams (W : World) (cfg : RVal) : World :=
+  { W with next := (submitObjs W.next cfg).2.2, held := (submitObjs W.next cfg).1 :: W.held }
+
+/-- submission of `cfg` for job `jid` -/
+def World.submit (W : World) (jid : String) (cfg : RVal) : World × AOut :=
+  astep (W.withParams cfg) (.storeJob jid "in" (submitObjs W.next cfg).2.1)
+
+/-- the defect class: ONE deep copy — the storage is given the job's own parameters object -/
+def World.submitShared (W : World) (jid : String) (cfg : RVal) : World × RVal × AOut :=
+  let (p, m) := cfg.copy W.next
+  let W1 : World := { W with next := m + 1, held := p :: W.held }
+  let (W2, o) := astep W1 (.storeJob jid "in" (.dict m [("args", .tuple [p]), ("kwargs", .atom .none)]))
+  (W2, p, o)
+
 /-! ### the defect class: a load that hands out an object the storage keeps -/
 
 /-- `load_job` returning a memoised copy instead of a new one: the copy is made once and kept (`memo`), every later
